@@ -14,6 +14,7 @@ static RAN: AtomicU64 = AtomicU64::new(0);
 /// schedule forcing (pause points of the repository's verification hooks)
 static LATE_LOOP_MS: AtomicU64 = AtomicU64::new(0);
 static RACE_TASK: AtomicU64 = AtomicU64::new(0);
+static GAP_EVERY: AtomicU64 = AtomicU64::new(0);
 static RACE_AT_GAP: AtomicBool = AtomicBool::new(false);
 static STOP_DONE: AtomicBool = AtomicBool::new(false);
 thread_local! {
@@ -76,12 +77,22 @@ fn run_scenario(sc: &Value) {
     LATE_LOOP_MS.store(sc["late_loop_ms"].as_u64().unwrap_or(0), Ordering::SeqCst);
     RACE_TASK.store(sc["race_task"].as_u64().unwrap_or(0), Ordering::SeqCst);
     let race_task = RACE_TASK.load(Ordering::SeqCst);
-    if LATE_LOOP_MS.load(Ordering::SeqCst) > 0 || race_task > 0 {
+    // `gap_every`: every k-th submission is held for 15 ms between the count and the insert of its push into the
+    // shared queue, while the event loops keep polling (a pop that finds the count but not yet the item)
+    GAP_EVERY.store(sc["gap_every"].as_u64().unwrap_or(0), Ordering::SeqCst);
+    if LATE_LOOP_MS.load(Ordering::SeqCst) > 0 || race_task > 0 || GAP_EVERY.load(Ordering::SeqCst) > 0 {
         open_coroutine_core::common::verif::set_pause(Some(Box::new(|point| match point {
             "event_loop_thread_enter" => {
                 let ms = LATE_LOOP_MS.load(Ordering::SeqCst);
                 if ms > 0 {
                     std::thread::sleep(Duration::from_millis(ms));
+                }
+            }
+            "shared_push_between_count_and_insert" => {
+                let k = GAP_EVERY.load(Ordering::SeqCst);
+                let t = CUR_TASK.with(std::cell::Cell::get);
+                if k > 0 && t > 0 && t % k == 0 {
+                    std::thread::sleep(Duration::from_millis(15));
                 }
             }
             "pool_submit_between_check_and_push" => {
